@@ -257,3 +257,21 @@ Definition check_trace (fuel : nat) (steps : list step) (qs : list key) (ons : l
 (* big integers are passed as 60-bit limbs, most significant first *)
 Definition zlimbs (neg : bool) (l : list Z) : Z :=
   let v := fold_left (fun a x => (a * 1152921504606846976 + x)%Z) l 0%Z in if neg then Z.opp v else v.
+
+(* where an observed run first differs from the model: (step index, Some key index | None = operator entries / length) *)
+Fixpoint first_diff {A} (eqb : A -> A -> bool) (a b : list A) (i : nat) : option nat :=
+  match a, b with
+  | [], [] => None
+  | x :: a', y :: b' => if eqb x y then first_diff eqb a' b' (S i) else Some i
+  | _, _ => Some i
+  end.
+Definition first_mismatch (fuel : nat) (steps : list step) (qs : list key) (ons : list (list N))
+           (observed : list observation) : option (nat * option nat) :=
+  let tr := trace fuel machine0 steps qs ons in
+  match first_diff observation_eqb tr observed O with
+  | None => None
+  | Some i => match nth_error tr i, nth_error observed i with
+              | Some a, Some b => Some (i, first_diff obs_eqb (fst a) (fst b) O)
+              | _, _ => Some (i, None)
+              end
+  end.
